@@ -51,7 +51,7 @@ async fn drain(k: usize) {
 async fn run_case(c: &Value) -> Value {
     let np = c["peers"].as_u64().unwrap() as usize;
     let nr = c["reqs"].as_u64().unwrap() as usize;
-    let yields = c["yields"].as_u64().unwrap_or(80) as usize;
+    let yields = c["yields"].as_u64().unwrap_or(120) as usize;
     let q = FetchQueue::default();
     let sh = Mutex::new(Shared {
         events: vec![],
